@@ -423,7 +423,7 @@ def run(tier, replay=None):
                 tot = sum(ws)
                 if tot > 0 and not isinstance(vec_tag(impl), str):
                     dev = max(abs(impl[x] - ws[x] / tot) for x in range(P["n"]))
-                    if dev > 1e-8:
+                    if not (dev <= 1e-8):
                         sig = "C18/gibbs/unbalanced-tau" if tp_ != tq_ else "C18/gibbs/conditional"
                         chk.violation("Gibbs vector is not the exact full conditional of the joint pedigree posterior"
                                       + (" (target has tau_p != tau_q)" if tp_ != tq_ else ""),
@@ -435,7 +435,7 @@ def run(tier, replay=None):
                 if isinstance(vec_tag(impl), str):
                     continue
                 cur = int(st[t, k])
-                if abs(sum(impl) - 1.0) > 1e-9 or min(impl) < -1e-12:
+                if not (abs(sum(impl) - 1.0) <= 1e-9) or not (min(impl) >= -1e-12):
                     chk.violation("MH vector is not a probability vector", case, "C18/mh/sum")
                 pio = math.exp(impl_log_joint(P, st)) * fact_prod(st[t, :P["ploidy"][t]].tolist())
                 for x in range(P["n"]):
@@ -452,7 +452,7 @@ def run(tier, replay=None):
                         continue
                     fa = pio * impl[x]
                     fb = math.exp(lj) * fact_prod(s2[t, :P["ploidy"][t]].tolist()) * back[cur]
-                    if max(fa, fb) > 1e-280 and abs(fa - fb) > 1e-8 * max(fa, fb):
+                    if not (fa == fa and fb == fb) or (max(fa, fb) > 1e-280 and abs(fa - fb) > 1e-8 * max(fa, fb)):   # NaN flows fail too
                         chk.violation("MH move violates detailed balance w.r.t. the joint pedigree posterior",
                                       {**case, "allele": x, "pi*K_forward": fa, "pi*K_backward": fb}, "C18/mh/db")
                         break
